@@ -252,7 +252,18 @@ func (g *ilvGen) less() *Node {
 // mutate applies an in-place or capacity-sensitive builtin to a view.
 func (g *ilvGen) mutate() *Node {
 	v := g.view(g.r.Range(0, 2))
-	switch g.r.Pick([]int{8, 3, 4, 3, 3, 2, 2, 2, 2, 2, 2, 1, 3, 4, 2, 4, 2, 4, 4, 3, 4, 2}) {
+	switch g.r.Pick([]int{8, 3, 4, 3, 3, 2, 2, 2, 2, 2, 2, 1, 3, 4, 2, 4, 2, 4, 4, 3, 4, 2, 4}) {
+	case 22:
+		// filters that keep everything (or drop everything), map with the
+		// identity, then in-place work on the result
+		ty := QS(PickStr(g.r, []string{"list", "list", "vector"}))
+		f := PickNode(g.r,
+			Call("select", ty, L(A("lambda"), L(A("x")), A("true")), v),
+			Call("reject", ty, L(A("lambda"), L(A("x")), A("false")), v),
+			Call("select", ty, L(A("lambda"), L(A("x")), Call(">=", A("x"), I(0))), v),
+			Call("map", ty, A("identity"), v),
+			Call("reject", ty, L(A("lambda"), L(A("x")), A("true")), v))
+		return PickNode(g.r, Call("stable-sort", g.less(), f), Call("append!", f, I(7)), Call("stable-sort", A(">"), f))
 	case 20:
 		// insertion at the very end of a sequence (where a spare slot of the
 		// source's storage would be), then in-place work on the result
